@@ -275,7 +275,7 @@ fn dispatch<T: Scalar>(cfg: &Cfg, sect: Sect, j: u64, rng: &mut Rng, out: &mut T
             let mk = if (j / nn) % 2 == 0 { MaK::Pfe } else { MaK::Eft };
             let mi = ((j / (2 * nn)) % 4) as usize;
             let man = *rng.pick(&[1usize, 2, 3, 5, 9]);
-            let ma = catalogue::ma_specs(man)[mi].clone();
+            let ma = if mk == MaK::Eft && rng.chance(1, 3) { rng.pick(&catalogue::overshooting_ma_specs(man.max(2))).clone() } else { catalogue::ma_specs(man)[mi].clone() };
             let class = *rng.pick(ALL_CLASSES);
             let len = if rng.coin() { rng.usize(0, n + 2) } else { 2 * n + rng.usize(5, 80) };
             let spec = Spec::ma(mk, n, Spec::Echo, ma);
